@@ -86,6 +86,20 @@ SCENARIOS = {
     "dict_spec": {"root": "P", "classes": {"KChild": KCHILD, "P": cls([
         attr("kd", TD(TSTR, TU("KChild")), "factory", D(), item="kd_item"),
     ])}},
+    "frozen_nested": {"root": "P", "classes": {"Child": CHILD, "P": cls([
+        attr("child", TU("Child")),
+        attr("n", TINT, "lit", I(0)),
+    ], frozen=True)}},
+    "frozen_list": {"root": "P", "classes": {"P": cls([
+        attr("nums", TL(TINT), "lit", L(), item="num"),
+        attr("n", TINT, "lit", I(0)),
+    ], frozen=True)}},
+    "frozen_child": {"root": "P", "classes": {"Child": cls([attr("v", TINT, "lit", I(0)), attr("ws", TL(TINT), "lit", L(), item="w")], frozen=True), "P": cls([
+        attr("child", TU("Child")),
+    ])}},
+    "frozen_kids": {"root": "P", "classes": {"Child": cls([attr("v", TINT, "lit", I(0)), attr("ws", TL(TINT), "lit", L(), item="w")], frozen=True), "P": cls([
+        attr("kids", TL(TU("Child")), "factory", L(), item="kid"),
+    ])}},
     "prepared": {"root": "P", "classes": {"P": cls([
         attr("n", TINT, "lit", I(0), prep="pclip"),
         attr("nums", TL(TINT), "factory", L(), iprep="pclip", item="num"),
